@@ -165,6 +165,15 @@ func genC12(c *Ctx) {
 		r := realURLSet(s)
 		c.emit("urlset.sanitized", []string{s}, r, nontrivial(s, r), class)
 	}
+	// long candidates: any window or cap on the vetted URL must not let an unsafe tail through
+	for _, n := range []int{4095, 4096, 4097, 8191, 8192, 8193, 9000, 16384, 70000} {
+		head := strings.Repeat("QUJD", n/4+1)[:n]
+		for _, tail := range []string{"&x=1", "_:y", ":javascript:alert(1)", "&colon;z", "&#58;z", ""} {
+			do(head+tail+" 2x", "long-candidate")
+			do("a.png 1x, "+head+tail+" 2x", "long-candidate")
+			do(head+tail, "long-candidate")
+		}
+	}
 	pf := func(s, class string) {
 		r := realParseFloatOk(s)
 		c.emit("urlset.pf", []string{s}, r, r == "true" || strings.ContainsAny(s, "0123456789"), class)
